@@ -38,3 +38,13 @@ pub fn __pos_nz(s: &[u64]) -> (r: Option<usize>)
 //@ assume std::<T as From<T>>::from : reflexive conversion is the identity (std: `impl<T> From<T> for T { fn from(t: T) -> T { t } }`)
 pub assume_specification<T>[ <T as core::convert::From<T>>::from ](x: T) -> (r: T)
     ensures r == x;
+
+//@ assume __cmp_rev : rule R12c: std semantics of `Iterator::cmp(a.iter().rev(), b.iter().rev())` for equal lengths: lexicographic comparison from the last element down
+#[verifier::external_body]
+pub fn __cmp_rev(a: &[u64], b: &[u64]) -> (r: core::cmp::Ordering)
+    requires a.len() == b.len()
+    ensures
+        (r == core::cmp::Ordering::Equal) <==> (a@ == b@),
+        (r == core::cmp::Ordering::Less) <==> (exists|k: int| 0 <= k < a.len() && a[k] < b[k] && forall|j: int| k < j < a.len() ==> a[j] == b[j]),
+        (r == core::cmp::Ordering::Greater) <==> (exists|k: int| 0 <= k < a.len() && a[k] > b[k] && forall|j: int| k < j < a.len() ==> a[j] == b[j]),
+{ unimplemented!() }
